@@ -593,7 +593,7 @@ def check_c01(tier, replay=None):
 
 def check_c02(tier, replay=None):
     m = mult(tier)
-    plan = [(G.honest, 32 * m, {}), (G.handover, 10 * m, {}), (G.dupaddr, 8 * m, {}), (G.endgame_cancel, 8 * m, {}), (G.nothing_to_assign, 8 * m, {}), (G.reannounce, 6 * m, {}), (G.orphaned, 6 * m, {}), (G.delayed_honest, 10 * m, {})]
+    plan = [(G.honest, 32 * m, {}), (G.handover, 10 * m, {}), (G.dupaddr, 8 * m, {}), (G.endgame_cancel, 8 * m, {}), (G.nothing_to_assign, 8 * m, {}), (G.reannounce, 6 * m, {}), (G.orphaned, 9 * m, {}), (G.delayed_honest, 10 * m, {})]
     return swarm_check('C02', tier, plan, need_actions=(), kinds= ['Unchoke', 'Bitfield', 'Piece', 'Have'],
                        design_over=dict(Fuel=3, BFMenu='{{1, 2}}') if tier == 'quick' else dict(Fuel=4, MaxQ=2),
                        extra_oracles=[oracle_c02], vacuity={'completions': 40}, replay=replay, live=True,
@@ -625,7 +625,7 @@ def check_c09(tier, replay=None):
 
 def check_c10(tier, replay=None):
     m = mult(tier)
-    plan = [(G.honest, 20 * m, {}), (G.adversarial, 20 * m, {}), (G.reassign, 25 * m, {}), (G.endgame_cancel, 12 * m, {}), (G.choked_delivery, 10 * m, {}), (G.delayed_reassign, 8 * m, {}), ('model', 20 * m, {})]
+    plan = [(G.honest, 20 * m, {}), (G.adversarial, 20 * m, {}), (G.reassign, 25 * m, {}), (G.endgame_cancel, 12 * m, {}), (G.choked_delivery, 10 * m, {}), (G.out_of_order, 10 * m, {}), (G.delayed_reassign, 8 * m, {}), ('model', 20 * m, {})]
     return swarm_check('C10', tier, plan, need_actions=('HPiece', 'HReply'), kinds= ['Unchoke', 'Choke', 'Bitfield', 'Piece'],
                        design_over=dict(NBlocks='N3b', Fuel=6, Peers='{a}', BFMenu='{{1, 2}}') if tier == 'quick' else dict(NBlocks='N3b', Fuel=4, BFMenu='{{1, 2}}'),   # 3.2 M states
                        vacuity={'requests_written': 100, 'completions': 20}, replay=replay,
@@ -644,7 +644,7 @@ def check_c11(tier, replay=None):
 
 def check_c12(tier, replay=None):
     m = mult(tier)
-    plan = [(G.adversarial, 50 * m, {}), (G.honest, 6 * m, {}), (G.reassign, 30 * m, {}), (G.stale_choke, 10 * m, {}), (G.choke_race, 30 * m, {}), (G.dupaddr, 10 * m, {}), (G.endgame_cancel, 8 * m, {}), (G.nothing_to_assign, 10 * m, {}), (G.choked_delivery, 8 * m, {}), (G.stale_kill, 10 * m, {}), (G.accept_limit, 4 * m, {}), (G.delayed_adversarial, 20 * m, {}), (G.delayed_reassign, 12 * m, {}), ('model', 30 * m, {})]
+    plan = [(G.adversarial, 50 * m, {}), (G.honest, 6 * m, {}), (G.reassign, 30 * m, {}), (G.stale_choke, 10 * m, {}), (G.choke_race, 30 * m, {}), (G.dupaddr, 10 * m, {}), (G.endgame_cancel, 8 * m, {}), (G.nothing_to_assign, 10 * m, {}), (G.choked_delivery, 8 * m, {}), (G.stale_kill, 10 * m, {}), (G.accept_limit, 4 * m, {}), (G.choke_idle_have, 8 * m, {}), (G.delayed_adversarial, 20 * m, {}), (G.delayed_reassign, 12 * m, {}), ('model', 30 * m, {})]
     return swarm_check('C12', tier, plan, need_actions=('MUnchoke', 'MChoke', 'MPieceDone', 'MKill'), kinds= ['Unchoke', 'Choke', 'Bitfield', 'Piece'] if tier == 'quick' else ['Unchoke', 'Choke', 'Bitfield', 'Piece', 'Have'],
                        design_over=dict(Fuel=3, BFMenu='{{1, 2}}') if tier == 'quick' else dict(Fuel=3, BFMenu='{{1, 2}, {1}}'),   # 2.3 M states, 4 min
                        vacuity={'mgr_events': 500, 'completions': 5}, replay=replay,
@@ -664,7 +664,7 @@ def check_c13(tier, replay=None):
 
 def check_c14(tier, replay=None):
     m = mult(tier)
-    plan = [(G.choking, 20 * m, {}), (G.slots, 10 * m, {}), (G.rotation_race, 16 * m, {}), (G.optimistic, 5 * m, {}), (G.delayed_choking, 6 * m, {})]
+    plan = [(G.choking, 20 * m, {}), (G.slots, 10 * m, {}), (G.rotation_race, 16 * m, {}), (G.optimistic, 5 * m, {}), (G.delayed_choking, 6 * m, {}), (G.late_joiner, 8 * m, {})]
     return swarm_check('C14', tier, plan, need_actions=('MRotate', 'MBitfield', 'HBroadState'), kinds= ['Bitfield', 'Interested'],
                        design_over=dict(Peers='{a, b}', NPieces=1, NBlocks='N1', TickFuel=1, Fuel=2, MaxUnchoked=1, BFMenu='{{1}}', OptRounds=1) if tier == 'quick'
                        else dict(Peers='{a, b, c}', NPieces=1, NBlocks='N1', TickFuel=1, Fuel=1, MaxUnchoked=1, BFMenu='{{1}}', OptRounds=1, MaxQ=2),   # 6.3 M states, 8 min
